@@ -17,6 +17,13 @@ func main() {
 		core.ChildMain(os.Args[2])
 		return
 	}
+	if len(os.Args) >= 2 && os.Args[1] == "corpus-gen" {
+		if err := checks.CorpusGen(); err != nil {
+			fmt.Fprintln(os.Stderr, err)
+			os.Exit(1)
+		}
+		return
+	}
 	if len(os.Args) < 2 {
 		fmt.Fprintln(os.Stderr, "usage: vcheck <ID> <quick|thorough> [--replay file]")
 		os.Exit(3)
